@@ -414,6 +414,17 @@ static void emitCall(const CallBase *ci) {
     if (n.startswith("llvm.memcpy") || n.startswith("llvm.memmove") || n.startswith("llvm.memset")) {
       bool isSet = n.startswith("llvm.memset");
       if (curFrozen) b << "  FROZEN_CHECK(" << arg(0) << ");\n";
+      if (!isSet && !isa<ConstantInt>(ci->getArgOperand(2))) {
+        // symbolic-length copy between arrays of one struct type (Vector<T>::insert/erase): copy element-wise so that cbmc keeps
+        // typed objects; byte-level memmove of symbolic length on a struct array gives no verdict.  Falls back to memmove when the
+        // length is not a multiple of the element size.
+        Type *dt = ci->getArgOperand(0)->stripPointerCasts()->getType()->getPointerElementType();
+        Type *st = ci->getArgOperand(1)->stripPointerCasts()->getType()->getPointerElementType();
+        if (dt == st && dt->isStructTy() && dt->isSized() && DL->getTypeAllocSize(dt) > 1) {
+          b << "  LL_TYPED_MOVE(" << ctype(dt) << ", " << arg(0) << ", " << arg(1) << ", (size_t)" << arg(2) << ");\n";
+          return;
+        }
+      }
       if (isSet) b << "  memset((void*)" << arg(0) << ", (int)" << arg(1) << ", (size_t)" << arg(2) << ");\n";
       else b << "  " << (n.startswith("llvm.memcpy") ? "memcpy" : "memmove") << "((void*)" << arg(0) << ", (const void*)" << arg(1) << ", (size_t)" << arg(2) << ");\n";
       return;
@@ -528,6 +539,11 @@ static void emitInst(const Instruction &I) {
       unsigned w = t->getIntegerBitWidth();
       const char *o = I.getOpcode() == Instruction::Add ? "+" : I.getOpcode() == Instruction::Sub ? "-" : I.getOpcode() == Instruction::Mul ? "*" :
                       I.getOpcode() == Instruction::And ? "&" : I.getOpcode() == Instruction::Or ? "|" : "^";
+      if (I.getOpcode() == Instruction::Sub && w == 64) {
+        // pointer difference written as ptrtoint-sub: keep it a pointer difference so that cbmc folds same-object differences to constants
+        auto *pa = dyn_cast<PtrToIntOperator>(I.getOperand(0)), *pb = dyn_cast<PtrToIntOperator>(I.getOperand(1));
+        if (pa && pb) { b << lhs << "LL_PTR_DIFF(" << val(pa->getPointerOperand()) << ", " << val(pb->getPointerOperand()) << ");\n"; break; }
+      }
       if (auto *obo = dyn_cast<OverflowingBinaryOperator>(&I)) {
         const char *nm = I.getOpcode() == Instruction::Add ? "add" : I.getOpcode() == Instruction::Sub ? "sub" : "mul";
         if (obo->hasNoSignedWrap() && isStd(w) && w <= 64)
